@@ -131,7 +131,11 @@ func inferContracts(fn *ssa.Function) Contracts {
 					continue
 				}
 				// Only save the table if it is not empty.
-				nilnessTableSetByBB[b], isUpdated = add(nilnessTableSetByBB[b], table)
+				// The block is updated if any of the tables is new, whichever is added last (the
+				// iteration order of the map above is not fixed).
+				var added bool
+				nilnessTableSetByBB[b], added = add(nilnessTableSetByBB[b], table)
+				isUpdated = isUpdated || added
 			}
 		}
 
